@@ -264,6 +264,9 @@ def validate_trace(ctx, module, cfg, trace, shards=None, timeout=3000, per_shard
     counted = 0
     for fn, part, rc, out in results:
         seen = parse_ev(out)
+        nnotes = len(re.findall(r'<<\s*"NOTE",', out))
+        if nnotes:
+            ctx.notes["model_notes"] = ctx.notes.get("model_notes", 0) + nnotes    # behaviour allowed by the property but not the model's own steps
         evs = [json.loads(x) for x in part]
         want = set(i + 1 for i, ev in enumerate(evs) if countable(ev))
         complete = "Model checking completed. No error has been found." in out
